@@ -84,6 +84,7 @@ class Profile:
         self.multi_root = True
         self.symbolset = True
         self.kv_roots = True
+        self.numbers_at_strings = True
         self.child_bias = 3         # tenths: how often a block-valued slot is picked on purpose
         self.avoid = set()          # names of open known findings to avoid by construction
         self.expr_depth = 2
@@ -315,6 +316,9 @@ class Gen:
             mn, mx = alt.node.get("minLength"), alt.node.get("maxLength")
             if mx == 1:
                 return "str", ch.choice(["a", "&", "x", "|", " ", "é", "#"] if not p.forbid else ["a", "&", "x", "|", " "])
+            if not p.valid and p.numbers_at_strings and mx != 1 and ch.chance(1, 15):
+                # NAME 7: an unquoted number at a string-typed keyword is loaded as a number (and printed back quoted)
+                return ("int", ch.int(0, 99999)) if ch.bool() else ("float", ch.choice([0.5, 7.25, 10.0, 3.125]))
             if k == "expression" and slot.alts[0].ref == "expression.json" and ch.chance(1, 6):
                 return "listx", ch.choice(LISTX)   # list expression {a,b,c}: unquoted, kept verbatim
             if k == "symbol" and ch.chance(1, 2):
